@@ -1,0 +1,17 @@
+//! Verification hooks.
+//!
+//! Only compiled with the `verif_hooks` feature. The functions in this module expose internal
+//! intermediate values to external checkers and don't change the behavior of the library.
+
+use crate::{
+    geometry::{Angle, Point},
+    primitives::common::PlaneSector,
+};
+
+/// Returns the parts of the plane sector which is used to draw arcs and sectors.
+///
+/// The returned tuple contains the operation (0 = intersection of the half planes, 1 = union,
+/// 2 = entire plane) and the normal vectors of the left and right half plane.
+pub fn plane_sector_parts(angle_start: Angle, angle_sweep: Angle) -> (u8, Point, Point) {
+    PlaneSector::new(angle_start, angle_sweep).verif_parts()
+}
